@@ -9,6 +9,7 @@ import (
 	"crypto/rsa"
 	"errors"
 	"fmt"
+	"github.com/fxamacker/cbor/v2"
 	"io"
 	"math/big"
 
@@ -253,6 +254,10 @@ func runC14(c *Collector, r *Rng, thorough bool) {
 		for _, d := range []int64{1, 2, 255, 256, 65537} {
 			roundTrip("small-d/"+ci.name, keyWithSmallD(ci.curve, big.NewInt(d)))
 		}
+		// the largest private scalars: d = n-1, n-2, n-256
+		for _, off := range []int64{1, 2, 256} {
+			roundTrip("large-d/"+ci.name, keyWithSmallD(ci.curve, new(big.Int).Sub(ci.curve.Params().N, big.NewInt(off))))
+		}
 	}
 	c.Notes = append(c.Notes, fmt.Sprintf("keys with a leading-zero coordinate found by rejection sampling: %v", lzCount))
 	// Ed25519
@@ -339,6 +344,9 @@ func decorate(r *Rng, k *cose.Key) {
 	if r.Chance(1, 3) {
 		k.Params[int64(-70000)] = "extra"
 	}
+	if r.Chance(1, 4) { // an extra parameter whose value is a tagged item, or an integer too large for 64 bits
+		k.Params[int64(-70001)] = pick(r, []any{cbor.Tag{Number: 100, Content: int64(5)}, cbor.Tag{Number: 32, Content: "https://example.org"}, *new(big.Int).Lsh(big.NewInt(1), 70)})
+	}
 }
 
 // ---------- C15 ----------
@@ -348,7 +356,9 @@ func runC15(c *Collector, r *Rng, thorough bool) {
 	ktys := []int64{0, 1, 2, 4, 99, -1}
 	crvs := []*W{nil, wInt(0, -1), wInt(1, -1), wInt(2, -1), wInt(3, -1), wInt(4, -1), wInt(5, -1), wInt(6, -1), wInt(7, -1), wInt(8, -1), wTstr("P-256", -1)}
 	algs := []*W{nil, wInt(0, -1), wInt(-7, -1), wInt(-35, -1), wInt(-36, -1), wInt(-8, -1), wInt(-37, -1), wTstr("ES256", -1)}
-	opss := []*W{nil, wArr(-1), wArr(-1, wInt(1, -1)), wArr(-1, wInt(2, -1)), wArr(-1, wInt(1, -1), wInt(2, -1)), wArr(-1, wTstr("sign", -1)), wArr(-1, wInt(99, -1)), wTstr("sign", -1), wArr(-1, wTstr("bogus", -1)), wArr(-1, wBool(true))}
+	opss := []*W{nil, wArr(-1), wArr(-1, wInt(1, -1)), wArr(-1, wInt(2, -1)), wArr(-1, wInt(1, -1), wInt(2, -1)), wArr(-1, wTstr("sign", -1)), wArr(-1, wInt(99, -1)), wTstr("sign", -1), wArr(-1, wTstr("bogus", -1)), wArr(-1, wBool(true)),
+		// values outside the registry: present key_ops that name neither sign nor verify grant nothing
+		wArr(-1, wInt(65, -1)), wArr(-1, wInt(66, -1)), wArr(-1, wInt(3, -1), wInt(129, -1)), wArr(-1, wInt(-63, -1)), wArr(-1, wInt(-62, -1), wInt(64, -1)), wArr(-1, wInt(1<<32+1, -1), wInt(1<<32+2, -1))}
 	lens := []int{-1, 0, 16, 31, 32, 33, 48, 64, 66, 67}
 	count := 0
 	for _, kty := range ktys {
@@ -414,6 +424,63 @@ func runC15(c *Collector, r *Rng, thorough bool) {
 		}
 		b, desc := mutateBytes(r, t.Ser())
 		c15One(c, "byte-fault/"+desc, b)
+	}
+	// byte-valued parameters (x, y, d, k, kid, base IV) given as text strings of the same length, and key_ops outside
+	// the registry on otherwise usable keys
+	for i := 0; i < 40; i++ {
+		var t *W
+		ci := pick(r, curves)
+		switch i % 3 {
+		case 0:
+			k, _ := ecdsa.GenerateKey(ci.curve, r)
+			ck, _ := cose.NewKeyFromPrivate(k)
+			ck.ID = []byte("kid-1")
+			b, _ := ck.MarshalCBOR()
+			t, _ = refParseFull(b)
+		case 1:
+			_, priv, _ := ed25519.GenerateKey(r)
+			ck, _ := cose.NewKeyFromPrivate(priv)
+			if i%2 == 0 {
+				delete(ck.Params, int64(-4)) // public half only
+			}
+			b, _ := ck.MarshalCBOR()
+			t, _ = refParseFull(b)
+		default:
+			t = genKeyTree(r)
+		}
+		if t == nil || t.Maj != 5 {
+			continue
+		}
+		for j := 0; j+1 < len(t.Kids); j += 2 {
+			lab, val := t.Kids[j], t.Kids[j+1]
+			if val.Maj == 2 && (lab.Maj == 1 || (lab.Maj == 0 && (lab.Val == 2 || lab.Val == 5))) {
+				m := t.Clone()
+				txt := bytes.Repeat([]byte("k"), len(val.Str))
+				m.Kids[j+1] = wTstr(string(txt), -1)
+				c15One(c, "text-for-bytes", m.Ser())
+			}
+			if lab.Maj == 0 && lab.Val == 4 {
+				continue
+			}
+		}
+		for _, ops := range [][]int64{{65}, {66}, {3, 129}, {-63}, {-62, 64}, {1<<32 + 1}} {
+			m := t.Clone()
+			var ow []*W
+			for _, o := range ops {
+				ow = append(ow, wInt(o, -1))
+			}
+			replaced := false
+			for j := 0; j+1 < len(m.Kids); j += 2 {
+				if m.Kids[j].Maj == 0 && m.Kids[j].Val == 4 {
+					m.Kids[j+1] = wArr(-1, ow...)
+					replaced = true
+				}
+			}
+			if !replaced {
+				m.Kids = append(m.Kids, wInt(4, -1), wArr(-1, ow...))
+			}
+			c15One(c, "unregistered-key-ops", m.Ser())
+		}
 	}
 	// every curve id under both key types with well-sized material, with and without alg: complete keys that differ
 	// from a usable one only in the curve / algorithm pairing
@@ -563,10 +630,7 @@ func c15One(c *Collector, class string, data []byte) {
 	} else {
 		addCase(c, "signer/"+class, op, obs, serr == nil)
 		if serr == nil {
-			_, _, dd := k.OKP()
-			if k.Type == cose.KeyTypeEC2 {
-				_, _, _, dd = k.EC2()
-			}
+			dd := wireBytesParam(data, -4) // private material: the byte string under label -4 of the received key
 			switch {
 			case k.Type != cose.KeyTypeEC2 && k.Type != cose.KeyTypeOKP:
 				c.Fail("C15/signer-for-unsupported-key", fmt.Sprintf("Signer() granted for key type %v", k.Type), rep)
@@ -595,14 +659,36 @@ func c15One(c *Collector, class string, data []byte) {
 			case vf.Algorithm() != derived:
 				c.Fail("C15/verifier-algorithm", fmt.Sprintf("verifier algorithm %v is not the one fixed by the key (%v)", vf.Algorithm(), derived), rep)
 			}
-			if k.Type == cose.KeyTypeEC2 {
-				_, x, y, _ := k.EC2()
-				if len(x) == 0 || len(y) == 0 {
-					c.Fail("C15/verifier-without-public", "Verifier() granted without the public point", rep)
-				}
+			if x, y := wireBytesParam(data, -2), wireBytesParam(data, -3); len(x) == 0 || (k.Type == cose.KeyTypeEC2 && len(y) == 0) {
+				c.Fail("C15/verifier-without-public", "Verifier() granted without the public point (byte strings under -2 / -3 of the received key)", rep)
 			}
 		}
 	}
+}
+
+// wireBytesParam: the content of the byte string stored under a negative label of the COSE_Key bytes (independent
+// reader); nil if the label is absent or its value is not a byte string
+func wireBytesParam(data []byte, label int64) []byte {
+	w, err := refParseFull(data)
+	for err == nil && w.Maj == 6 {
+		w = w.Kids[0]
+	}
+	if err != nil || w.Maj != 5 {
+		return nil
+	}
+	for i := 0; i+1 < len(w.Kids); i += 2 {
+		kk, vv := w.Kids[i], w.Kids[i+1]
+		for kk.Maj == 6 && kk.Val == 55799 {
+			kk = kk.Kids[0]
+		}
+		for vv.Maj == 6 && vv.Val == 55799 {
+			vv = vv.Kids[0]
+		}
+		if kk.Maj == 1 && -1-int64(kk.Val) == label && vv.Maj == 2 {
+			return vv.Str
+		}
+	}
+	return nil
 }
 
 // opsPresentOnWire: is label 4 present in the COSE_Key bytes (independent reader)
@@ -848,6 +934,35 @@ func runC17(c *Collector, r *Rng, thorough bool) {
 						c.Fail("C17/digest-equivalence", "SignDigest(H(m)) through a crypto.Signer does not verify as a signature of m", rep)
 					}
 				}
+			}
+		}
+	}
+	// --- an RSA key behind an opaque crypto.Signer: same signatures as with the key itself (salt length = digest length) ---
+	for _, k := range opaqueKeySet(r) {
+		if _, ok := k.pub.(*rsa.PublicKey); !ok {
+			continue
+		}
+		sg, vf := k.signer(), k.verifier()
+		msg := r.Bytes(1 + r.Intn(100))
+		rep := map[string]any{"alg": k.alg.String(), "key": k.name, "msg": hx(msg)}
+		c.Eval("opaque-signer-rsa/"+k.alg.String(), hx(msg), true)
+		sig, err := sg.Sign(r, msg)
+		if err != nil {
+			c.Fail("C17/digest-sign-failed", "Sign through an opaque RSA crypto.Signer failed: "+err.Error(), rep)
+			continue
+		}
+		digest := digestOf(algHash(k.alg), msg)
+		if vf.Verify(msg, sig) != nil || vf.(cose.DigestVerifier).VerifyDigest(digest, sig) != nil {
+			c.Fail("C17/digest-equivalence", "a signature made through an opaque RSA crypto.Signer does not verify with the verifier of the same algorithm and key", rep)
+		}
+		if pub, ok := k.pub.(*rsa.PublicKey); ok { // the RFC 8230 parameters: MGF1 with the same hash, salt as long as the digest
+			if rsa.VerifyPSS(pub, algHash(k.alg), digest, sig, &rsa.PSSOptions{SaltLength: rsa.PSSSaltLengthEqualsHash}) != nil {
+				c.Fail("C17/digest-equivalence", "a signature made through an opaque RSA crypto.Signer is not RSASSA-PSS with salt length = digest length", rep)
+			}
+		}
+		if ds, ok := sg.(cose.DigestSigner); ok {
+			if s2, err := ds.SignDigest(r, digest); err != nil || vf.Verify(msg, s2) != nil {
+				c.Fail("C17/digest-equivalence", "SignDigest(H(m)) through an opaque RSA crypto.Signer does not verify as a signature of m", rep)
 			}
 		}
 	}
